@@ -49,6 +49,13 @@ CHECKS.update({
    note=REL_NOTE),
 })
 
+CHECKS.update({
+ "C05": dict(engine="crash", category="fault_enumeration", design_ref="§8 C05",
+   technique="crash-point enumeration on the real director + TLA+ relational check (TLC, RelCheck.tla crash_equiv) + TLA+ trace validation of every restarted run",
+   text="A reference build is run to completion while a snapshot (database as of the last commit + tree) is taken at every crash point: after every state-changing commit (startup, build, cleanup), before every file-system action of a running step, after every cleanup removal. Each snapshot is restarted to completion; TLC compares its final canonical state, outputs and leftover files with the uninterrupted reference and validates the restarted trace (no internal error, interrupted steps only complete through a new job).",
+   note=REL_NOTE + " Process kill is modelled as database-as-of-last-commit + tree-at-that-instant; power loss is out of scope."),
+})
+
 PENDING = ["C01","C02","C04","C05","C06","C07","C11","C13","C14","C16","C17","C18","C20"]
 
 def main():
@@ -78,6 +85,8 @@ def main():
         "engines": [
             {"name": "buildlayer", "path": "checks/buildlayer.py", "serves_properties": sorted(p for p, c in CHECKS.items() if c["engine"] == "buildlayer"),
              "kind_free_text": "Layer B: real director in process, simulated commands, controller-owned schedules; every recorded trace validated by TLC against spec/TraceCheck.tla"},
+            {"name": "crash", "path": "checks/crash.py", "serves_properties": ["C05"],
+             "kind_free_text": "snapshot-based crash injection at every commit / step fs action / cleanup removal of Layer B executions"},
             {"name": "history", "path": "checks/history.py", "serves_properties": sorted(p for p, c in CHECKS.items() if c["engine"] == "history"),
              "kind_free_text": "Layer B histories; final states of related executions compared by TLC through spec/RelCheck.tla"},
         ],
